@@ -17,6 +17,7 @@ CONSTANTS
   Threads = {%(threads)s}
   MaxOps = %(maxops)d
   MaxRetry = 200
+  MaxLinks = %(links)d
   RetryView = %(retry)d
 CONSTRAINT RetryBound
 %(aba)s
@@ -31,6 +32,7 @@ CONSTANTS
   Threads = {%(threads)s}
   MaxOps = 100000
   MaxRetry = 200
+  MaxLinks = 2
   RetryView = 200
 INVARIANTS TraceNoDoubleOwner TraceNoForeignWrite TraceSizeBound TraceIdleSizeExact TraceQuiescent
 POSTCONDITION TraceAccepted
@@ -38,9 +40,9 @@ CHECK_DEADLOCK FALSE
 """
 
 
-def cfg(nslots, nthreads, maxops, retry, prune_aba=True):
+def cfg(nslots, nthreads, maxops, retry, prune_aba=True, links=0):
     return CFG_TMPL % dict(nslots=nslots, threads=', '.join(str(i + 1) for i in range(nthreads)), maxops=maxops,
-                           retry=retry, aba='CONSTRAINT NoAbaSoFar' if prune_aba else '')
+                           retry=retry, links=links, aba='CONSTRAINT NoAbaSoFar' if prune_aba else '')
 
 
 def state_vec(st, nslots):
@@ -53,13 +55,21 @@ def state_vec(st, nslots):
 def step_of(label, dst_state):
     m = re.match(r'(\w+)\((\d+)\)', label)
     act, t = m.group(1), int(m.group(2))
+    def reg(name):
+        v = dst_state[name]
+        return v[t - 1] if isinstance(v, list) else v[t]
     if act == 'PopStart':
-        return t, 1, 0
+        return t, 1, 0, 0
     if act == 'PushStart':
-        buf = dst_state['buf']
-        b = buf[t - 1] if isinstance(buf, list) else buf[t]
-        return t, 2, b
-    return t, 0, 0
+        return t, 2, reg('buf'), 0
+    if act == 'LinkStart':
+        a = reg('buf')
+        mn = dst_state['mnext']
+        b = mn[a] if isinstance(mn, dict) else mn[a]
+        return t, 3, a, b
+    if act == 'ChainStart':
+        return t, 4, reg('ca'), 0
+    return t, 0, 0, 0
 
 
 def schedules_from_graph(nodes_txt, edges, inits, nslots, rng, max_paths=None):
@@ -81,8 +91,8 @@ def schedules_from_graph(nodes_txt, edges, inits, nslots, rng, max_paths=None):
         for e in path:
             s, d, label = edges[e]
             dst = node(d)
-            t, kind, arg = step_of(label, dst)
-            steps.append([t, kind, arg, index[d]])
+            t, kind, arg, arg2 = step_of(label, dst)
+            steps.append([t, kind, arg, index[d], arg2])
         scheds.append({'name': 'cover-%d' % pi, 'steps': steps})
     return scheds, states, remaining
 
@@ -92,9 +102,9 @@ def schedules_from_behaviours(behs, nslots, prefix):
     for bi, beh in enumerate(behs):
         steps = []
         for label, st in beh[1:]:
-            t, kind, arg = step_of(label, st)
+            t, kind, arg, arg2 = step_of(label, st)
             states.append(state_vec(st, nslots))
-            steps.append([t, kind, arg, len(states) - 1])
+            steps.append([t, kind, arg, len(states) - 1, arg2])
         scheds.append({'name': '%s-%d' % (prefix, bi), 'steps': steps})
     return scheds, states
 
@@ -119,7 +129,7 @@ def run(prop, tier, seed, replay=None):
     ns, nt = 3, 2
     ck.log('TLC exhaustive: %d slots, %d threads' % (ns, nt))
     res, nodes, edges, inits = tlc.dump_graph('FreeList', 'mc.cfg', timeout=900,
-                                              extra_files={'mc.cfg': cfg(ns, nt, 2, 2)})
+                                              extra_files={'mc.cfg': cfg(ns, nt, 2, 2, True, 1)})
     if res.violation:
         ck.inconc('TLC reports %s on the FreeList specification itself (design-level lead, not a verdict on the code): %s'
                   % (res.violation, res.cmd))
@@ -130,14 +140,14 @@ def run(prop, tier, seed, replay=None):
     ck.add('states', res.distinct)
     ck.add('transitions', len(edges))
     ck.cov['exhaustive'] = True
-    ck.cov['tlc_configs'] = ['FreeList %d slots/%d threads/2 pops per thread/retry<=2, ABA pruned: %d distinct states, '
+    ck.cov['tlc_configs'] = ['FreeList %d slots/%d threads/2 pops + 1 message link per thread/retry<=2, ABA pruned: %d distinct states, '
                              '%d transitions, depth %d, %.1fs' % (ns, nt, res.distinct, len(edges), res.depth, res.wall)]
     scheds, states, remaining = schedules_from_graph(nodes, edges, inits, ns, rng)
     ck.log('transition cover: %d paths, %d edges uncovered' % (len(scheds), remaining))
     witness = []
     wpath = os.path.join(KNOWN_DIR, 'freelist_aba_4x3.json')
     job = {'nslots': ns, 'nthreads': nt, 'capper': 4, 'states': states, 'Schedules': scheds,
-           'random': {'n': 3000 if tier == 'quick' else 40000, 'seed': ck.seed, 'maxops': 4, 'traces': 150 if tier == 'quick' else 600,
+           'random': {'n': 4000 if tier == 'quick' else 40000, 'seed': ck.seed, 'maxops': 6, 'traces': 150 if tier == 'quick' else 600, 'links': True,
                       'nslots': [2, 3, 4, 5], 'threads': [2, 3, 4]},
            'retry_exhaust': True, 'known_aba': aba_listed}
     wd = tlc.scratch('vfl')
@@ -240,9 +250,9 @@ def handle_result(ck, r, prop, what):
 
 def thorough(ck, prop, rng, aba_listed):
     # exhaustive 3 threads on 3 slots (no ABA possible with < 4 slots), then simulation of 4 slots/3 threads replayed
-    for (ns, nt, mo, rv, to) in [(3, 3, 1, 1, 1500), (4, 2, 2, 2, 1500)]:
+    for (ns, nt, mo, rv, to) in [(3, 3, 1, 1, 1500), (4, 2, 2, 1, 1500)]:
         ck.log('TLC exhaustive: %d slots, %d threads, %d pops' % (ns, nt, mo))
-        res = tlc.run('FreeList', 'mc.cfg', timeout=to, extra_files={'mc.cfg': cfg(ns, nt, mo, rv)})
+        res = tlc.run('FreeList', 'mc.cfg', timeout=to, extra_files={'mc.cfg': cfg(ns, nt, mo, rv, True, 1)})
         if res.violation:
             ck.inconc('TLC reports %s on the specification (%d slots/%d threads)' % (res.violation, ns, nt))
             return
@@ -256,7 +266,7 @@ def thorough(ck, prop, rng, aba_listed):
                                          % (ns, nt, mo, to, res.distinct))
     for (ns, nt) in [(4, 3), (5, 4)]:
         sres, behs = tlc.simulate('FreeList', 'mc.cfg', num=400, depth=150, seed=ck.seed, timeout=600,
-                                  extra_files={'mc.cfg': cfg(ns, nt, 3, 2)})
+                                  extra_files={'mc.cfg': cfg(ns, nt, 3, 2, True, 1)})
         scheds, states = schedules_from_behaviours(behs, ns, 'sim%dx%d' % (ns, nt))
         job = {'nslots': ns, 'nthreads': nt, 'capper': 4, 'states': states, 'Schedules': scheds,
                'random': {'n': 0, 'seed': ck.seed, 'maxops': 1, 'traces': 0, 'nslots': [3], 'threads': [2]},
@@ -282,7 +292,7 @@ def do_replay(ck, path):
             ck.violation('recorded real trace violates ' + tv.violation, rep, name=os.path.basename(path))
         return ck.finish()
     job = {'nslots': rep['nslots'], 'nthreads': rep['nthreads'], 'capper': rep.get('capper', 4), 'states': [],
-           'Schedules': [{'name': 'replay', 'steps': [s[:3] + [-1] for s in rep['steps']]}],
+           'Schedules': [{'name': 'replay', 'steps': [s[:3] + [-1] + [s[4] if len(s) > 4 else 0] for s in rep['steps']]}],
            'random': {'n': 0, 'seed': 1, 'maxops': 1, 'traces': 0, 'nslots': [3], 'threads': [2]}, 'known_aba': False}
     g = gorun.run_harness('^TestVS_FreeList$', HARNESS, INSTR, inputs={'job': job}, timeout=600)
     if g.result is None:
